@@ -74,4 +74,11 @@ instance (sv : Bool) (xs : List Int) (op : Op) (ans : Ans) (xs' : List Int) :
   unfold Allowed
   cases op <;> simp only <;> infer_instance
 
+/-- A whole observed history `obs` (answer, sequence observed afterwards — one entry per operation)
+is admitted from the sequence `xs`. -/
+def Holds (sv : Bool) : List Int → List Op → List (Ans × List Int) → Prop
+  | _, [], [] => True
+  | xs, op :: ops, (ans, xs') :: obs => Allowed sv xs op ans xs' ∧ Holds sv xs' ops obs
+  | _, _, _ => False
+
 end GoguVerif.Spec.C19
